@@ -61,7 +61,11 @@ impl Engine for Msim {
             "C13" => "some object was handed out at least 3 times",
             _ => "see DESIGN.md section 6",
         };
-        let r = format!("{}{}", common, r);
+        let r = if matches!(prop, "C01" | "C02" | "C03" | "C04") {
+            format!("{}{}. Cases of the stage `timeouts` (virtual-clock interpreter) count as non-trivial by the C10 rule: a deadline expired or a completion happened within 1 ms of a pending deadline", common, r)
+        } else {
+            format!("{}{}", common, r)
+        };
         r.to_string()
     }
 
